@@ -8,7 +8,7 @@
    live tree never carries a cache (Inv_LiveTreesClean).  Terminal histories are emitted and replayed
    call by call on the real API. *)
 EXTENDS Render, Props, Json, TLCExt
-CONSTANTS MaxOps, Widths, Routes, CfgName, Emit
+CONSTANTS MaxOps, Widths, Routes, CfgName, Emit, EmitOneIn
 
 NoA == [x \in {} |-> 0]
 T(s) == [k |-> "t", s |-> s]
@@ -55,5 +55,6 @@ Beh == [id |-> "mcapi", docbodies |-> Docs, cfg |-> cfg,
         hist |-> [i \in 1..Len(hist) |-> [op |-> hist[i].op, doc |-> hist[i].doc, dom |-> hist[i].dom, tree |-> hist[i].tree,
                                            w |-> hist[i].w, route |-> IF hist[i].route = "" THEN "string" ELSE hist[i].route]],
         meta |-> [src |-> "MC_Api", predh |-> [i \in 1..Len(hist) |-> hist[i].res]]]
-Inv_Emit == (Emit /\ Len(hist) = MaxOps /\ NRenders >= 2 /\ hist[MaxOps].op \in {"oneshot", "render"}) => PrintT(<<"BEH", ToJson(Beh)>>)
+\* (thorough scope: millions of terminal histories - one in EmitOneIn is replayed on the real API)
+Inv_Emit == (Emit /\ Len(hist) = MaxOps /\ NRenders >= 2 /\ hist[MaxOps].op \in {"oneshot", "render"} /\ (EmitOneIn = 1 \/ RandomElement(1..EmitOneIn) = 1)) => PrintT(<<"BEH", ToJson(Beh)>>)
 =============================================================================
